@@ -179,6 +179,17 @@ class Run:
                               {'got': lib.safe_repr(got), 'last': lib.safe_repr(last), 'nsets': len(sets), 'r4': r4, 'landings': s.landings[-2:]})
                     return
                 state_now = got
+            # the worker has ended: assignment from the parent side is still rejected - also when it is made by a thread started
+            # after the worker's death (which may have been handed the recycled identifier of a dead worker thread)
+            def assign():
+                w.user_state = 'parent-wrote-this-after-the-end'
+            fresh = gen % 2 == 0
+            r = lib.call_with_deadline(assign, 600.0) if fresh else lib.timed(assign)
+            if r[0] == 'ok':
+                self.viol('parent-cannot-assign', f'parent-assignment-accepted-after-the-end:{"fresh-thread" if fresh else "caller-thread"}:{lib.base_kind(kind)}')
+                return
+            if r[0] == 'exc' and not isinstance(r[1], RuntimeError):
+                self.viol('parent-cannot-assign', f'parent-assignment-after-the-end-raises:{type(r[1]).__name__}')
             if gen == c['chain']:
                 break
             # next incarnation
